@@ -58,13 +58,14 @@ def unit():
     for n in ["token_display_local_4_3", "token_display_public_2_0", "token_display_local_0_1"]:
         hs.append(Harness(n, ["C09", "C01"], complete=False, bound="payload/footer lengths as named; contents symbolic", functions=fn, timeout=1500,
                           desc="token Display == header || b64(payload) [. b64(footer)]"))
-    hs.append(Harness("keyid_bytes_and_order", ["C13", "C09"], functions=fn, timeout=1500, desc="33-byte ids round-trip; Eq/Ord agree with bytes (all ids)"))
+    hs.append(Harness("keyid_eq_ord_hash_agree_with_bytes", ["C13"], functions=fn, timeout=900, path="paserk::id::verif",
+                      desc="Eq / Ord / Hash / Clone of KeyId agree with its 33 bytes, for all pairs of ids (loop bound 33: complete)"))
     hs.append(Harness("header_table_prefix_free", ["C10"], functions=fn, desc="52-entry header table: no entry is a prefix of another (exhaustive over the constants)"))
     hs.append(Harness("sibling_headers_agree", ["C10", "C03", "C07"], functions=fn))
     hs.append(Harness("canary_text", ["C09", "C10"], expect="fail"))
     return Unit(
         name="u3_text", members=["paseto-core"], package="paseto-core",
-        inject=[("paseto-core/src/base64.rs", "units/u2_base64/harness.rs"), (E, "units/u3_text/harness.rs")], harness_path="encodings::verif", allow_unsafe=True,
+        inject=[("paseto-core/src/base64.rs", "units/u2_base64/harness.rs"), (E, "units/u3_text/harness.rs"), ("paseto-core/src/paserk/id.rs", "units/u3_text/keyid.rs")], harness_path="encodings::verif", allow_unsafe=True,
         contracts="units/u2_base64/contracts.json",
         kani_flags=["-Z", "function-contracts", "-Z", "stubbing", "--no-assertion-reach-checks"], harnesses=hs, pre_build=extract_headers,
         assumptions=["strings are ASCII (non-ASCII bytes are covered at the base64 layer, unit u2_base64, which treats bytes individually)"],
